@@ -74,11 +74,11 @@ TotalOf(cols, s) == SumRange(LAMBDA b : cols[b][s], 1, Len(cols))
 VennInit == /\ inp \in [1..NBins -> [1..NSort -> 0..MaxCnt]]
             /\ cuts \in SUBSET (1..(NBins - 1))
             /\ pc = "peel" /\ ci = 1 /\ lvl = 0 /\ res = Zero(NSort)
-PeelLevel == /\ pc = "peel" /\ lvl < Overall(ChunkCols(ci))
+PeelLevel == /\ Kind = "venn" /\ pc = "peel" /\ lvl < Overall(ChunkCols(ci))
              /\ res' = AddLevel(res, NSort, ChunkCols(ci), lvl)
              /\ lvl' = lvl + 1
              /\ UNCHANGED <<inp, pc, cuts, ci>>
-EndChunk == /\ pc = "peel" /\ lvl = Overall(ChunkCols(ci))
+EndChunk == /\ Kind = "venn" /\ pc = "peel" /\ lvl = Overall(ChunkCols(ci))
             /\ IF ci = NChunks THEN pc' = "done" /\ ci' = ci ELSE pc' = "peel" /\ ci' = ci + 1
             /\ lvl' = 0
             /\ UNCHANGED <<inp, cuts, res>>
@@ -172,6 +172,6 @@ TrajToeplitz == (Kind = "traj" /\ pc = "done") =>
 
 -----------------------------------------------------------------------------
 Init == IF Kind = "venn" THEN VennInit ELSE IF Kind = "stack" THEN StackInit ELSE TrajInit
-Next == (Kind = "venn" /\ (PeelLevel \/ EndChunk)) \/ StackCompute \/ TrajCompute
+Next == PeelLevel \/ EndChunk \/ StackCompute \/ TrajCompute
 Spec == Init /\ [][Next]_vars
 =============================================================================
